@@ -315,6 +315,35 @@ def check_amounts(strs, ctx):
             ctx.count('boundary-rejected')
 
 
+def w_huge(ctx, wid, seed):
+    """element COUNTS far beyond the compact-size boundaries (the vector decoder reads long vectors in batches): a witness stack of ~208 k items, ~125 k outputs,
+    ~48 k inputs - well-formed transactions of 0.2 - 2 MB, through the in-process decoder only (no command line carries them)"""
+    def base():
+        t = T.Tx()
+        t.version = 2
+        t.locktime = 7
+        t.vin = [dict(txid=bytes(range(32)), n=1, script=b'', seq=0xfffffffe, wit=[])]
+        t.vout = [dict(value=1000, spk=b'\x51')]
+        return t
+    for name in ('witness-items-208334', 'witness-items-210000', 'outputs-125001', 'outputs-130000', 'inputs-48200', 'inputs-100000'):
+        t = base()
+        kind, n = name.rsplit('-', 1)
+        n = int(n)
+        if kind == 'witness-items':
+            t.vin[0]['wit'] = [b''] * n if n == 208334 else [bytes([i & 0xff]) for i in range(n)]
+            t.vin.append(dict(txid=bytes(32), n=0, script=b'\x51', seq=1, wit=[bytes(range(200)) * 3]))
+        elif kind == 'outputs':
+            t.vout = [dict(value=i, spk=bytes([0x51 + (i % 16)])) for i in range(n)]
+        else:
+            t.vin = [dict(txid=i.to_bytes(32, 'little'), n=i & 0xffff, script=b'', seq=i, wit=[]) for i in range(n)]
+        ctx.count('huge:' + kind)
+        try:
+            check_valid(t, ctx)
+        except Violation as v:
+            ctx.violations.append(dict(campaign='huge', why='%s (%s)' % (v.why, name), case=dict(kind='huge-counts', name=name), observed=str(v.observed)[:300], refails=3))
+            return
+
+
 def w_valid(ctx, wid, seed, examples):
     core.hyp_campaign(ctx, 'valid', txs(), check_valid, examples, seed, lambda t: dict(full=t.ser(True).hex()))
 
@@ -396,7 +425,7 @@ def run(tier, t0):
     else:
         nv, npf, nc, na, ncli = 30000, 400, 30000, 10000, 150
     tasks = [(w_valid, dict(examples=nv)) for _ in range(W)] + [(w_prefix, dict(examples=npf)) for _ in range(W // 2)] + [(w_corrupt, dict(examples=nc)) for _ in range(W)] + \
-            [(w_amounts, dict(examples=na)) for _ in range(4)] + [(w_cli, dict(examples=ncli)) for _ in range(2)]
+            [(w_amounts, dict(examples=na)) for _ in range(4)] + [(w_cli, dict(examples=ncli)) for _ in range(2)] + [(w_huge, dict())]
     m = core.parallel(PID, tasks)
     return core.finish(PID, tier, m, RULE, t0, min_nontrivial=3000 if tier == 'quick' else 100000,
                        assumptions=['reference codec vf/ref/tx.py (BIP144 as Core deserialises: a 00 after the version is the segwit marker)', 'OpenSSL SHA-256 via hashlib',
@@ -404,6 +433,10 @@ def run(tier, t0):
 
 
 def replay(rec):
+    if isinstance(rec.get('case'), dict) and rec['case'].get('kind') == 'huge-counts':
+        ctx = core.Ctx(PID)
+        w_huge(ctx, 0, 0)
+        return (not ctx.violations), str(ctx.violations[:1])[:300]
     c = rec['case']
     ctx = core.Ctx(PID)
     try:
